@@ -61,8 +61,11 @@ def build(out_dir, files, with_services=True):
     cached = os.path.join(CACHE, key.hexdigest())
     binary = os.path.join(out_dir, "vf_harness")
     if os.path.exists(cached):
-        shutil.copy(cached, binary)
-        return binary, "cached"
+        try:
+            shutil.copy(cached, binary)
+            return binary, "cached"
+        except OSError:
+            pass  # pruned by a concurrent shard between the test and the copy: compile instead
     rc, log = sanit.compile_cxx(["vf_harness.cpp"], "vf_harness", [".", THIRD], out_dir)
     if rc != 0:
         return None, log
